@@ -96,6 +96,60 @@ def far_case(draw):
     return {"nq": nq, "gates": gates, "aps": draw(st.booleans()), "regs": draw(registers(nq))}
 
 
+@st.composite
+def wide_case(draw):
+    """5-6 qubits, post-selection allowed, mostly entangling gates: several two-qubit gates on different parts of the
+    register around one three-qubit gate, so that the analysis of which gates may be post-selected has several
+    independent groups of qubits to keep apart and to join."""
+    nq = draw(st.sampled_from([5, 6]))
+    gates = []
+    n_multi = draw(st.integers(3, 6))
+    at3 = draw(st.integers(0, n_multi - 1)) if draw(st.integers(0, 3)) > 0 else -1
+    for i in range(n_multi):
+        if draw(st.booleans()):
+            gates.append([draw(st.sampled_from(ONE_Q + ROT[:0])), [draw(st.integers(0, nq - 1))], []])
+        if i == at3:
+            base = draw(st.integers(0, nq - 3))
+            gates.append([draw(st.sampled_from(["ccx", "ccz"])), [base + x for x in draw(st.permutations([0, 1, 2]))],
+                          []])
+        else:
+            a = draw(st.integers(0, nq - 1))
+            b = (a + draw(st.sampled_from([1, 1, 1, 2, nq - 1]))) % nq
+            gates.append([draw(st.sampled_from(["cx", "cz"])), [a, b], []])
+    return {"nq": nq, "gates": gates, "aps": True, "regs": None, "max_photons": 10,
+            "cols": draw(st.lists(st.integers(0, 2 ** nq - 1), min_size=8, max_size=8, unique=True))}
+
+
+@st.composite
+def brickwork_case(draw):
+    """5-6 qubits, post-selection allowed, gates arranged in layers as quantum circuits usually are: a layer is a set of
+    two-qubit gates on disjoint pairs (a random matching of a random subset of the register), optionally with one
+    three-qubit gate on an adjacent triple beside them; single-qubit gates in between."""
+    nq = draw(st.sampled_from([5, 6, 6, 6]))
+    gates = []
+    n_layers = draw(st.integers(2, 4))
+    at3 = draw(st.integers(0, n_layers - 1)) if draw(st.integers(0, 4)) > 0 else -1
+    for layer in range(n_layers):
+        free = list(range(nq))
+        if layer == at3:
+            base = draw(st.integers(0, nq - 3))
+            tri = [base, base + 1, base + 2]
+            gates.append([draw(st.sampled_from(["ccx", "ccz"])), list(draw(st.permutations(tri))), []])
+            free = [q for q in free if q not in tri]
+            if draw(st.booleans()):
+                free = []
+        free = list(draw(st.permutations(free)))
+        n_pairs = draw(st.integers(0 if layer == at3 else 1, len(free) // 2)) if len(free) >= 2 else 0
+        if at3 >= 0 and layer == at3 + 1 and draw(st.booleans()):
+            n_pairs = len(free) // 2            # a full layer right behind the three-qubit gate
+        for i in range(n_pairs):
+            gates.append([draw(st.sampled_from(["cx", "cz"])), [free[2 * i], free[2 * i + 1]], []])
+        for _ in range(draw(st.integers(0, 2))):
+            gates.append([draw(st.sampled_from(ONE_Q)), [draw(st.integers(0, nq - 1))], []])
+    return {"nq": nq, "gates": gates, "aps": True, "regs": None, "max_photons": 10,
+            "cols": draw(st.lists(st.integers(0, 2 ** nq - 1), min_size=8, max_size=8, unique=True))}
+
+
 def far_fixed_cases(full):
     """every ordered qubit pair 3 or 4 apart on 5 qubits (routing swaps on both sides of the gate)"""
     pairs = [(0, 4), (4, 0), (0, 3), (1, 4), (3, 0), (4, 1)]
@@ -161,6 +215,8 @@ def run_convert(case):
     if circ.input_modes != 2 * nq:
         raise Violation(f"converted circuit has {circ.input_modes} input modes for {nq} qubits", key="mode-count")
     hp = sum(circ.heralds["input"].values())
+    if case.get("max_photons") and nq + hp > case["max_photons"]:
+        return {"nontrivial": False, "labels": ["too-many-heralded-gates-skipped"]}     # cost bound, by size
     outs = list(fock(2 * nq, nq))
     dim = 2 ** nq
 
@@ -180,7 +236,11 @@ def run_convert(case):
         if rules is None or rules.validate(lw.State(list(o))):
             accepted.append((o, qubit_index(o)))
     M = np.zeros((dim, dim), dtype=complex)
-    for b in range(dim):
+    # wide registers with many herald photons: a generated subset of the basis inputs (columns) instead of all of them
+    cols = sorted(case["cols"]) if case.get("cols") and nq + hp > 8 else list(range(dim))
+    if len(cols) < dim:
+        labels.add("column-subset")
+    for b in cols:
         vin = []
         for q in range(nq):
             vin += [0, 1] if (b >> q) & 1 else [1, 0]
@@ -192,6 +252,8 @@ def run_convert(case):
                                     f"for basis input {b:0{nq}b}", key="leak-outside-qubit-subspace")
             else:
                 M[qi, b] = a
+    V = V[:, cols]
+    M = M[:, cols]
     k = np.vdot(V, M) / np.vdot(V, V)
     res = np.abs(M - k * V).max()
     if abs(k) < 1e-6:
@@ -235,5 +297,7 @@ def subs(tier):
         Sub("convert", run_convert, strategy=qc_case(), examples=35 if q else 1500),
         Sub("far-apart-all-pairs", run_convert, cases=lambda: far_fixed_cases(full=not q), exhaustive=True),
         Sub("far-apart-qubits", run_convert, strategy=far_case(), examples=1 if q else 40),
+        Sub("wide-registers", run_convert, strategy=wide_case(), examples=2 if q else 150),
+        Sub("wide-brickwork", run_convert, strategy=brickwork_case(), examples=7 if q else 300),
         Sub("convert-forced-patterns", run_convert, strategy=qc_case(forced=True), examples=20 if q else 900),
     ]
